@@ -1281,15 +1281,8 @@ func (s *solutionImpl) isFeasible(index int, includeTemporal bool) (
 			}
 		}
 	}
-	for _, constraint := range model.constraintMap[AtEachSolution] {
-		if filterConstraint(constraint, includeTemporal) {
-			continue
-		}
-		if s.isSolutionNotFeasible(constraint) {
-			return constraint, index, nil
-		}
-	}
-
+	// The solution data of the constraints is brought up to date before the
+	// constraints are asked whether the solution violates them.
 	for _, constraint := range model.constraintsWithSolutionUpdater {
 		value, err := constraint.(ConstraintSolutionDataUpdater).
 			UpdateConstraintSolutionData(s)
@@ -1297,6 +1290,15 @@ func (s *solutionImpl) isFeasible(index int, includeTemporal bool) (
 			return nil, -1, err
 		}
 		s.constraintSolutionData[constraint] = value
+	}
+
+	for _, constraint := range model.constraintMap[AtEachSolution] {
+		if filterConstraint(constraint, includeTemporal) {
+			continue
+		}
+		if s.isSolutionNotFeasible(constraint) {
+			return constraint, index, nil
+		}
 	}
 
 	for _, objective := range model.objectivesWithSolutionUpdater {
